@@ -6,10 +6,24 @@ extern "C" {
 }
 #include <errno.h>
 #include <sys/uio.h>
+#include <sys/socket.h>
+#include <fcntl.h>
+#include <poll.h>
+#include <unistd.h>
+/* the harness looks into the library objects (queues, decoder state, descriptors): most members are protected or
+ * private in the C++ view */
+#define protected public
+#define private public
 #include "core.h"
 #include "convert.h"
 #include "message.h"
 #include "queue.h"
+#include "event.h"
+#include "connection.h"
+#include "stream.h"
+#include "io.h"
+#undef protected
+#undef private
 
 using namespace mpt;
 
@@ -198,10 +212,156 @@ static size_t wire_cut(const char *mode)
 	return wirelen - wirepos;
 }
 
+/* ------------------------------------------------------------------ stream glue: the C++ input object io::stream::input
+ * (mpt++/io_stream.cpp, io_stream_input.cpp) as receiver; sender and transport as in drv_cqueue.c */
+class xin : public io::stream::input
+{
+public:
+	xin(const streaminfo *i) : io::stream::input(i), _ref(1) { }
+	void unref() __MPT_OVERRIDE { if (!_ref.lower()) delete this; }
+	uintptr_t addref() __MPT_OVERRIDE { return _ref.raise(); }
+	void set_decoder(int code) { if (_srm) _srm->_rd._dec = mpt_message_decoder(code); }
+private:
+	refcount _ref;
+};
+static ::mpt::stream *stx;
+static xin *st_in;
+static int st_ready, st_h1 = -1, st_h2 = -1, st_rfd = -1;
+static size_t st_sent, st_got, st_moved;
+static int st_first;
+static uint8_t *st_tb; static size_t st_tblen, st_tbcap, st_tbpos;
+static void st_drain(void)
+{
+	uint8_t tmp[4096];
+	ssize_t n;
+	while (st_h1 >= 0 && (n = read(st_h1, tmp, sizeof(tmp))) > 0) {
+		if (st_tblen + n > st_tbcap) { st_tbcap = (st_tblen + n) * 2; st_tb = (uint8_t *) realloc(st_tb, st_tbcap); }
+		memcpy(st_tb + st_tblen, tmp, n);
+		st_tblen += n;
+	}
+}
+static void st_close(void)
+{
+	if (!st_ready) return;
+	delete stx; stx = 0;
+	if (st_in) { st_in->unref(); st_in = 0; }
+	if (st_h1 >= 0) close(st_h1);
+	if (st_h2 >= 0) close(st_h2);
+	st_h1 = st_h2 = -1;
+	st_ready = 0;
+}
+static int st_ev(void *, event *ev)
+{
+	if (!ev || !ev->msg) return 0;
+	message tmp = *ev->msg;
+	size_t len = tmp.length();
+	uint8_t *b = (uint8_t *) malloc(len ? len : 1);
+	tmp.read(len, b);
+	if (!st_first) fputc(',', stdout);
+	st_first = 0;
+	put_bytes(b, len);
+	free(b);
+	++st_got;
+	return 0;
+}
+static void st_cmd(void)
+{
+	const char *op = drv_w[1];
+	uint8_t *dat = 0; size_t dlen = 0, a; int isnull = 0;
+	char buf[32];
+	if (!strcmp(op, "new") && drv_nw == 3) {
+		int zpe, code = codec_code(drv_w[2], &zpe), p1[2], p2[2];
+		::mpt::socket sock;
+		if (code <= 0) { puts("bad-op"); return; }
+		st_close();
+		if (socketpair(AF_UNIX, SOCK_STREAM, 0, p1) < 0 || socketpair(AF_UNIX, SOCK_STREAM, 0, p2) < 0) { puts("R nosocket | C - | I -"); return; }
+		st_h1 = p1[1]; st_h2 = p2[0];
+		st_tblen = st_tbpos = 0;
+		{ int small = 1; setsockopt(p1[0], SOL_SOCKET, SO_SNDBUF, &small, sizeof(small)); }
+		fcntl(p1[0], F_SETFL, fcntl(p1[0], F_GETFL) | O_NONBLOCK);
+		fcntl(st_h1, F_SETFL, fcntl(st_h1, F_GETFL) | O_NONBLOCK);
+		stx = new ::mpt::stream;
+		stx->_wd._enc = mpt_message_encoder(code);
+		sock._id = p1[0];
+		int r1 = mpt_stream_dopen(stx, &sock, ::mpt::stream::Write | ::mpt::stream::WriteBuf);
+		sock._id = -1;   /* the C++ socket closes its descriptor when it goes out of scope */
+		/* descriptor and mode of the receiver come from a stream information */
+		streaminfo info;
+		_mpt_stream_setfile(&info, st_rfd = p2[1], -1);
+		info._fd |= ::mpt::stream::ReadBuf;
+		st_in = new xin(&info);
+		info._fd = 0;   /* the information object would close the descriptor */
+		st_in->set_decoder(code);
+		st_ready = 1; st_sent = st_got = st_moved = 0;
+		printf("R %s | C - | I -\n", r1 < 0 ? "failed" : "ok");
+	}
+	else if (!st_ready) puts("bad-op");
+	else if (!strcmp(op, "push") && drv_nw == 3) {
+		if (drv_parse_data(drv_w[2], &dat, &dlen, &isnull) || isnull || !dlen) { puts("bad-op"); free(dat); return; }
+		ssize_t n = mpt_stream_push(stx, dlen, dat);
+		free(dat);
+		printf("R %s n=%s | C - | I -\n", n == (ssize_t) dlen ? "ok" : "short", retname(n, buf, sizeof(buf)));
+	}
+	else if (!strcmp(op, "term") && drv_nw == 2) {
+		ssize_t n = mpt_stream_push(stx, 0, 0);
+		if (n >= 0) ++st_sent;
+		printf("R %s | C - | I -\n", n >= 0 ? "ok" : "refused");
+	}
+	else if (!strcmp(op, "flush") && drv_nw == 2) {
+		int n = 0;
+		do {
+			mpt_stream_flush(stx);
+			st_drain();
+		} while (stx->_wd._state.done && ++n < 100000);
+		printf("R %s | C - | I -\n", stx->_wd._state.done ? "failed" : "ok");
+	}
+	else if (!strcmp(op, "deliver") && drv_nw == 3) {
+		if (drv_parse_nat(drv_w[2], &a) || a > (1u << 20)) { puts("bad-op"); return; }
+		size_t off = 0, n = st_tblen - st_tbpos;
+		if (n > a) n = a;
+		while (off < n) {
+			ssize_t w = write(st_h2, st_tb + st_tbpos + off, n - off);
+			if (w <= 0) break;
+			off += w;
+		}
+		st_tbpos += off;
+		st_moved += off;
+		printf("R ok n=%zu | C - | I -\n", off);
+	}
+	else if (!strcmp(op, "poll") && drv_nw == 2) {
+		struct pollfd pf;
+		int r = 0, n = 0;
+		pf.fd = st_rfd; pf.events = POLLIN;
+		while (r >= 0 && ++n < 100000 && (pf.revents = 0, poll(&pf, 1, 0)) > 0 && (pf.revents & POLLIN)) {
+			r = st_in->next(POLLIN);
+		}
+		puts("R ok | C - | I -");
+	}
+	else if (!strcmp(op, "dispatch") && drv_nw == 2) {
+		/* the consumer's loop: dispatch while a further message is reported */
+		int r, n = 0;
+		size_t start = st_got;
+		printf("R msgs=");
+		st_first = 1;
+		do {
+			size_t before = st_got;
+			r = st_in->dispatch(st_ev, 0);
+			if (st_got == before) break;
+		} while (r >= 0 && (r & ::mpt::event::Retry) && ++n < 4096);
+		if (st_first) fputc('-', stdout);
+		printf(" n=%zu | C - | I -\n", st_got - start);
+	}
+	else if (!strcmp(op, "sync") && drv_nw == 2) {
+		printf("R sent=%zu got=%zu | C - | I -\n", st_sent, st_got);
+	}
+	else puts("bad-op");
+}
+
 int main(void)
 {
 	static char line[1 << 20];
 	drv_init();
+	signal(SIGPIPE, SIG_IGN);
 	signal(SIGALRM, drv_sigfault);
 	while (alarm(0), fgets(line, sizeof(line), stdin)) {
 		if (line[0] == '#' || line[0] == '\n') { fputs(line, stdout); continue; }
@@ -372,11 +532,15 @@ int main(void)
 			}
 			else puts("bad-op");
 		}
+		else if (!strcmp(area, "st") && drv_nw >= 2) {
+			st_cmd();
+		}
 		else if (!strcmp(area, "sync") && drv_nw == 1) {
 			printf("R sent=%zu got=%zu left=%zu | C - | I -\n", sent, got, wirelen - wirepos);
 		}
 		else puts("bad-op");
 	}
+	st_close();
 	if (eq) { free(eq->base); delete eq; }
 	delete dq;
 	free(pending); free(wire);
